@@ -1,3 +1,4 @@
 pub mod amf0;
 pub mod chunk;
 pub mod msg;
+pub mod sha;
